@@ -2,6 +2,7 @@
    small-step transcription of synth/syntax/grammars/enumeration/bee_search.py.  Every theorem is about every
    grammar, cost table, rule order, filter, fuel and HISTORY (interleaving of `take k` and `merge_program`). -/
 import PS.Proofs.Enum.BeeSoundRun
+import PS.Proofs.Enum.BeeNodupRun
 namespace PS.C02Bee
 open PS PS.G PS.Bee
 
@@ -77,6 +78,49 @@ example : ((Gen.new cE).bind fun g => runActs cE 1000 [.take 10] g []).map (fun 
   decide +kernel
 example : ((Gen.new cE).bind fun g => runActs cE 1000 [.take 3, .merge (.node cOne []) cInt, .take 1] g []).map
     (fun r => r.2.length) = some 4 := by
+  decide +kernel
+
+/-! ### 2. NO DUPLICATES (any filter, no merge declaration)
+
+The frontier rule "increment index i until the first index > 1" (bee_search.py:210-218) is `PS.CD.succs` (shared with
+constant-delay search, `C02_Cd_successor_bijection`: every non-zero index tuple has exactly one predecessor).  The state
+invariant `GN` (PS/Proofs/Enum/BeeNodup*.lean): for every rule the PENDING combinations (queued or delayed, all rows)
+form a frontier of the successor forest (no tuple twice, none an ancestor of another); every banked program has a SOURCE,
+an expanded combination (strict ancestor of a pending one) of its rule whose i-th index is the bank index of the i-th
+argument; a program occurs in at most one index of the bank of a non-terminal, once.  A popped combination is still
+pending, so no banked program can have it as source: every candidate program is new.
+Hypotheses (decidable on the case, evaluated by the driver): `dictOK` (looking a listed rule up finds it) and
+`initFrontOK` (the fresh enumerator queues no (rule, combination) pair twice — true iff the rule table has no duplicate
+keys).  Full statement incl. merge declarations: NOT proved (after a merge, `other` leaves the banks, the source of its
+parents is gone; the implementation still yields each program at most once in every compared case). -/
+
+/-- one step keeps the no-duplicates invariant; banks only grow; a yielded program was in no index of the start symbol's
+    bank before the step and is in it afterwards -/
+theorem C02_Bee_nodup_step (E : Env S) (g g' : Gen S) (out : Option Prog) (h : step E g = some (g', out)) (hi : GN E g) :
+    GN E g' ∧ (∀ nt ci p, inBank g.st nt ci p → inBank g'.st nt ci p) ∧
+      ∀ p, out = some p → (∀ cj, ¬ inBank g.st E.G.start cj p) ∧ ∃ ci, inBank g'.st E.G.start ci p :=
+  step_nodup E g g' out h hi
+
+/-- **EACH PROGRAM AT MOST ONCE** (partial: no merge declaration in the history; any filter, grammar — finite or
+    recursive —, cost table, rule order, fuel): the yielded sequence is duplicate-free -/
+theorem C02_Bee_nodup_partial (E : Env S) (hd : dictOK E = true) (hf : initFrontOK E = true) (fuel : Nat) (acts : List Act)
+    (hacts : acts.all Act.isTake = true) (g0 g : Gen S) (out : List Prog) (h0 : Gen.new E = some g0)
+    (h : runActs E fuel acts g0 [] = some (g, out)) : out.Nodup :=
+  (runActs_nodup E fuel acts g0 g [] out hacts h (gn_new E (dictOK_of_check E hd) hf g0 h0) ⟨by simp, by simp⟩).2.1
+
+/-- **A PROGRAM ENTERS `_bank[S]` AT MOST ONCE**: after any such history every list of every bank is duplicate-free and a
+    program sits in at most one cost index of a non-terminal's bank -/
+theorem C02_Bee_bank_nodup_partial (E : Env S) (hd : dictOK E = true) (hf : initFrontOK E = true) (fuel : Nat) (acts : List Act)
+    (hacts : acts.all Act.isTake = true) (g0 g : Gen S) (out : List Prog) (h0 : Gen.new E = some g0)
+    (h : runActs E fuel acts g0 [] = some (g, out)) :
+    (∀ nt ci ps, AList.lookup ci (g.st.bankOf nt) = some ps → ps.Nodup) ∧
+    (∀ nt ci cj p, inBank g.st nt ci p → inBank g.st nt cj p → ci = cj) ∧
+    ∀ nt P, Frontier (pend g.st nt P) := by
+  have := (runActs_nodup E fuel acts g0 g [] out hacts h (gn_new E (dictOK_of_check E hd) hf g0 h0) ⟨by simp, by simp⟩).1.st
+  exact ⟨this.bankNd, this.bankU, this.front⟩
+
+example : dictOK cE = true ∧ initFrontOK cE = true := by decide +kernel
+example : ((Gen.new cE).bind fun g => runActs cE 1000 [.take 3, .take 10] g []).map (fun r => decide r.2.Nodup && decide (r.2.length = 5)) = some true := by
   decide +kernel
 
 /-! ### finding C02-F6: a rule with arguments of cost 0 loses programs -/
